@@ -1,6 +1,7 @@
 package main
 
 import (
+	"regexp"
 	"fmt"
 	"go/token"
 	"go/types"
@@ -1474,6 +1475,8 @@ func sortedKeys(m map[interface{}]bool) []interface{} {
 	return out
 }
 
+var propertyTag = regexp.MustCompile(`C[0-9][0-9]\.`)
+
 // invariantError: an invariant that names a local that no longer exists is contract drift (the
 // invariant is dropped and the drift reported), anything else is an engine error.
 func (x *Exec) invariantError(lname string, inv *Clause, err error) {
@@ -1482,6 +1485,11 @@ func (x *Exec) invariantError(lname string, inv *Clause, err error) {
 		e := x.u.eng
 		e.driftMu.Lock()
 		e.drift[lname] = fmt.Sprintf("invariant %q: %s", trunc(inv.Text, 80), msg)
+		if !propertyTag.MatchString(inv.Name) && strings.Contains(lname, " / loop#") {
+			// an unnamed loop invariant is a proof aid, not a clause of a property: if every
+			// obligation is still discharged without it nothing was lost
+			e.aidDrift[lname] = true
+		}
 		e.driftMu.Unlock()
 		return
 	}
